@@ -9,7 +9,11 @@ strided, read-only and broadcast arrays, NumPy scalars).  Whole histories are al
 numeric policies (np.errstate(divide='raise', invalid='raise'); RuntimeWarning promoted to an error).  Fitted FALCON /
 TD_FALCON / FusionART / ARTMAP models are queried through every prediction entry point with the optional arguments at
 their boundary values (get_probabilistic_action offset x optimality x action_space, get_action, get_rewards,
-predict(skip_channels), predict_regression(target_channels)).  Tie: the Lean checked kernels report `zerodiv`
+predict(skip_channels), predict_regression(target_channels)).  Outline queries (get_2d_ellipsoids / get_bounding_boxes,
+plot_cluster_bounds, visualize) are calls of a history like any other: models on MORE than two features - with categories
+whose extent lies entirely outside the two drawn features - are queried between training / prediction calls, bare and inside
+hosts, and the shared plotting scenarios of harness/artv/plotpure.py are continued (partial_fit, predict, centres) under
+this property's oracle.  Tie: the Lean checked kernels report `zerodiv`
 exactly where the implementation raises (kern ops, shared with C03)."""
 from __future__ import annotations
 
@@ -29,7 +33,12 @@ RULE = ("cases = (family, hyper-parameters incl. extreme-but-legal values, strea
         "batches (TD: one-row batches with single_sample_reward), then per trained / unseen state x default / explicit action "
         "space: get_actions_and_rewards, get_action(optimality), get_probabilistic_action(offset in {0, 1e-6, 1e-4, 0.1, 1} x "
         "optimality), get_rewards); plus (FusionART with 2-4 channels: predict(skip_channels) / predict_regression(target_channels) "
-        "for first / last / negative / several channels; ARTMAP.predict_regression / predict_ab)")
+        "for first / last / negative / several channels; ARTMAP.predict_regression / predict_ab); plus (elementary class with an "
+        "outline accessor / plot_cluster_bounds, 3-5 features, bare or inside SimpleARTMAP / DualVigilanceART / TopoART / FusionART, "
+        "stream with groups of rows that differ only in features beyond the first two + repeated rows, history fit | partial_fit "
+        "batch -> outline query (accessor | plot_cluster_bounds | visualize with the estimator's own labels_) -> predict -> "
+        "partial_fit -> outline query -> predict -> get_cluster_centers); plus (plotpure scenario: family, 2-feature stream, "
+        "plotting call inside the history, then partial_fit / predict / get_cluster_centers)")
 
 
 def finite_weights(est) -> bool:
@@ -191,6 +200,8 @@ def run(ctx):
     param_representations(ctx)
     strict_numeric_policy(ctx)
     prediction_arguments(ctx)
+    outline_queries(ctx)
+    plotting_histories(ctx)
 
 
 def _bounds_owner(est):
@@ -1176,3 +1187,296 @@ def prediction_arguments(ctx):
             ctx.issue("violation", f"FusionART.{stage.split('(')[0]}:channel-arguments:{exc_enum(e)}",
                       f"{stage} raised {e!r} on a fitted model with {k} channels", desc)
         cov.case(("predargs-fusion", spec, desc["X"]), True)
+
+
+# ---------------------------------------------------------------- outline queries inside a history
+# The statement quantifies over histories, and a history of a real session contains calls that only LOOK at the model:
+# the outline accessors (EllipsoidART.get_2d_ellipsoids, FuzzyART.get_bounding_boxes), plot_cluster_bounds, visualize
+# (and every frame of fit_gif, which calls them).  They draw the first two features of a model that may have more:
+# every quantity they derive from a category (direction of an axis, extent of a box) is a PROJECTION, and a category
+# whose whole extent lies in the features that are not drawn - two samples that differ only in the third feature -
+# projects to nothing.  The other sections never query an outline, and the shared plotting scenarios (plotpure) are
+# two-featured.  Here models on 3-5 features are trained on streams built from groups of rows that share their first two
+# features, an outline query is made between the training / prediction calls, and the property's clauses are evaluated
+# on what follows: no exception from fit / partial_fit / predict / get_cluster_centers, every weight, activation, match
+# value and centre finite, and the learned weights after the query are the learned weights before it (bit for bit).
+# A query that raises on a model it cannot draw is tolerated (BayesianART: arctan2 of complex eigenvectors with this
+# NumPy; classes / hosts without plot_cluster_bounds raise NotImplementedError); the model is judged all the same.
+
+OUTLINE_CLASSES = ["EllipsoidART", "HypersphereART", "FuzzyART", "EllipsoidART", "GaussianART", "QuadraticNeuronART",
+                   "EllipsoidART", "BayesianART", "ART2A"]
+OUTLINE_HOSTS = ["bare", "SimpleARTMAP", "bare", "DualVigilanceART", "FusionART", "bare", "TopoART"]
+OUTLINE_QUERIES = ["accessor", "plot_cluster_bounds", "visualize"]
+OUTLINE_ACCESSORS = {"get_2d_ellipsoids": (), "get_bounding_boxes": (2,)}     # public outline accessors and their arguments
+
+
+def _agg_axes():
+    """one off-screen figure for a whole section (None when matplotlib is missing)"""
+    try:
+        import matplotlib
+        matplotlib.use("Agg")
+        import matplotlib.pyplot as plt
+        fig, ax = plt.subplots()
+        return plt, fig, ax
+    except Exception:
+        return None
+
+
+def _weight_bytes(est):
+    """[(path, bytes, array)] of every weight reachable from an estimator"""
+    out, seen = [], set()
+
+    def walk(o, path):
+        if id(o) in seen or not hasattr(o, "__dict__"):
+            return
+        seen.add(id(o))
+        if "W" in o.__dict__:
+            for k, w in enumerate(o.__dict__["W"]):
+                a = np.array(w, dtype=float)
+                out.append((f"{path}.W[{k}]", a.tobytes(), a))
+        for name in ("module_a", "module_b", "base_module", "fusion_art"):
+            if name in o.__dict__:
+                walk(o.__dict__[name], f"{path}.{name}")
+        for k, m in enumerate(o.__dict__.get("modules", []) or []):
+            walk(m, f"{path}.modules[{k}]")
+    walk(est, "est")
+    return out
+
+
+def _planar_groups(r, d, n):
+    """n rows of [0,1]^d on the grid k/16: groups of rows that share their first two features and differ only in the
+    later ones (the extent of their category is invisible in the drawn plane), rows in general position, repeats"""
+    g = 16
+    rows = []
+    kinds = ["planar", "planar", "general", "repeat"] if r.random() < 0.5 else ["planar", "planar", "planar", "repeat"]
+    while len(rows) < n:
+        base = [r.randint(1, g - 1) for _ in range(d)]
+        kind = r.choice(kinds)
+        m = r.randint(2, 3)
+        for _ in range(m):
+            if kind == "planar":
+                row = base[:2] + [min(g, max(0, b + r.choice([-2, -1, 1, 2, 3]))) for b in base[2:]]
+            elif kind == "general":
+                row = [min(g, max(0, b + r.randint(-2, 2))) for b in base]
+            else:
+                row = list(base)
+            rows.append([v / g for v in row])
+    rows = rows[:n]
+    if r.random() < 0.5:        # groups interleaved: a category keeps growing after another one was touched
+        r.shuffle(rows)
+    return np.array(rows, dtype=float).reshape(n, d)
+
+
+def _outline_query(q, est, inner, host, plot_env, X, y):
+    """one outline query `q` on the fitted estimator; -> (what was called, exception enum | None)"""
+    plt, fig, ax = plot_env
+    target = inner if host == "FusionART" else est            # FusionART draws nothing itself: its channel module is drawn
+    Xd = X[:, : inner.dim_] if host == "FusionART" else X
+    called, raised = q, None
+    try:
+        with quiet(), np.errstate(all="ignore"):
+            if q == "accessor":
+                names = [a for a in OUTLINE_ACCESSORS if callable(getattr(inner, a, None))]
+                if names:
+                    called = "+".join(f"{a}({', '.join(map(repr, OUTLINE_ACCESSORS[a]))})" for a in names)
+                    for a in names:
+                        getattr(inner, a)(*OUTLINE_ACCESSORS[a])
+                else:
+                    q = "plot_cluster_bounds"
+                    called = "plot_cluster_bounds(ax, colors)"
+            if q == "plot_cluster_bounds":
+                called = "plot_cluster_bounds(ax, colors)"
+                target.plot_cluster_bounds(ax, [(0.1 * (k % 10), 0.5, 0.5, 1.0) for k in range(64)])
+            elif q == "visualize":
+                labels = y if host == "SimpleARTMAP" else est.labels_          # the estimator's own array, not a copy
+                called = "visualize(X, y, ax=ax)" if host == "SimpleARTMAP" else "visualize(X, labels_, ax=ax)"
+                target.visualize(Xd, labels, ax=ax)
+    except Exception as e:
+        raised = exc_enum(e)
+    finally:
+        try:
+            ax.cla()
+        except Exception:
+            pass
+    return called, raised
+
+
+def outline_queries(ctx):
+    """outline queries between the training / prediction calls of a model on more than two features (see the comment
+    above): the query leaves the learned weights as they were, and everything the history produces stays finite"""
+    from ..impl import time_limit
+    cov = ctx.cov
+    env = _agg_axes()
+    if env is None:
+        cov.hit("outline:matplotlib-missing")
+        return
+    try:
+        for i in range(ctx.scale(54, 810)):
+            r = gen.rng_for(ctx.seed, "C04-outline", i)
+            cls = OUTLINE_CLASSES[i % len(OUTLINE_CLASSES)]
+            host = OUTLINE_HOSTS[(i // len(OUTLINE_CLASSES) + i) % len(OUTLINE_HOSTS)]
+            d = r.choice([3, 3, 4, 5])
+            spec = _strict_spec(r, cls, d, host)
+            if spec is None:
+                host = "bare"
+                spec = _strict_spec(r, cls, d, host)
+            isp = {"bare": spec}.get(host) or spec.get("module_a") or spec.get("base_module") or spec["modules"][0]
+            t = r.random()
+            if cls != "BayesianART" and t < 0.35:      # low vigilance: the groups of rows grow (and share) categories
+                isp["rho"] = r.choice([0.25, 0.5]) if host != "DualVigilanceART" else 0.5
+            elif "r_hat" in isp and t < 0.8:           # a vigilance that admits samples up to 1/4 away: one category per group of rows
+                isp["r_hat"] = r.choice([1.0, 2.0, 4.0, 0.5])
+                isp["rho"] = 1.0 - 0.25 / isp["r_hat"]
+            if host == "DualVigilanceART" and not spec["rho_lower_bound"] < isp["rho"]:
+                spec["rho_lower_bound"] = r.choice([0.0, 0.125, 0.25])
+            if host == "TopoART" and r.random() < 0.5:
+                spec["tau"], spec["phi"] = 1000, r.randint(1, 3)         # no pruning round in this history
+            n = r.randint(5, 14)
+            raw = _planar_groups(r, d, n)
+            X = gen.cc(raw) if cls == "FuzzyART" else raw
+            if host == "FusionART":
+                X = np.hstack([X, gen.cc(raw[:, :1])])
+            sup = host == "SimpleARTMAP"
+            y = gen.labels(r, n, r.randint(1, 3)) if sup else None
+            k1 = r.randint(2, n - 1)
+            first = r.choice(["fit", "partial_fit"])
+            q1, q2 = r.choice(OUTLINE_QUERIES), r.choice(OUTLINE_QUERIES)
+            mode = r.choice(MODES)
+            calls = []
+            rep = {"spec": spec, "host": host, "features": d, "X": X.tolist(), "y": None if y is None else y.tolist(),
+                   "match_tracking": mode, "calls": calls,
+                   "second_channel_of_FusionART": "FuzzyART on complement-coded column 0" if host == "FusionART" else None}
+            where = cls if host == "bare" else f"{host}/{cls}"
+            stage = "__init__"
+            args = (lambda a, b: (X[a:b], y[a:b])) if sup else (lambda a, b: (X[a:b],))
+            bad = None
+            try:
+                with quiet(), time_limit(90.0), np.errstate(all="ignore"):
+                    est = make(spec)
+                    inner = _strict_inner(est, host)
+                    if cls == "FuzzyART":       # documented workflow: prepare_data fixes the column bounds ([0,1] = identity)
+                        inner.prepare_data(np.array([[0.0] * d, [1.0] * d]))
+                    spy = ActivationSpy(est)
+                    stage = first
+                    calls.append(f"{first}(rows 0:{k1})")
+                    getattr(est, first)(*args(0, k1), match_tracking=mode)
+                    seen_rows = k1
+                    for step, q in enumerate((q1, q2)):
+                        if not finite_weights(est):
+                            bad = (f":non-finite-weight", f"NaN/inf in the learned weights after {stage}")
+                            break
+                        before = _weight_bytes(est)
+                        if cls == "EllipsoidART":
+                            for w in inner.W:         # the situation this section is about (read off the public weights)
+                                w = np.asarray(w, dtype=float)
+                                if w[-1] > 0 and not np.any(w[d:2 * d]):
+                                    cov.hit("outline:grown-category-without-an-axis")      # two samples: a radius, no axis yet
+                                elif w[-1] > 0 and not np.any(w[d:2 * d][:2]):
+                                    cov.hit("outline:grown-category-with-axis-outside-the-drawn-plane")
+                                elif w[-1] > 0:
+                                    cov.hit("outline:grown-category-with-axis-inside-the-drawn-plane")
+                        called, raised = _outline_query(q, est, inner, host, env, X[:seen_rows], None if y is None else y[:seen_rows])
+                        calls.append(called + (f" [raised {raised}: tolerated]" if raised else ""))
+                        cov.hit(f"outline:query:{q}:{'raised' if raised else 'answered'}")
+                        if raised:
+                            cov.hit(f"outline:query-raised:{cls}:{raised}")
+                        after = _weight_bytes(est)
+                        if not finite_weights(est):
+                            nf = [(p_, a.tolist()) for p_, _, a in after if not np.all(np.isfinite(a))][:2]
+                            bad = (f":outline-query:non-finite-weight", f"the outline query {called} left NaN/inf in the learned weights "
+                                   f"(finite before the query): {nf}")
+                            break
+                        if [(p_, b_) for p_, b_, _ in before] != [(p_, b_) for p_, b_, _ in after]:
+                            ch = [(pa, wb.tolist(), wa.tolist()) for (pa, ba, wb), (_, bb, wa) in zip(before, after) if ba != bb][:2]
+                            bad = (f":outline-query:weights-changed", f"the outline query {called} changed the learned weights "
+                                   f"(path, before, after): {ch}" if len(before) == len(after) else
+                                   f"the outline query {called} changed the number of categories {len(before)} -> {len(after)}")
+                            break
+                        stage = "predict"
+                        calls.append(f"predict(rows 0:{n})")
+                        est.predict(X)
+                        if step == 0:
+                            stage = "partial_fit"
+                            calls.append(f"partial_fit(rows {k1}:{n})")
+                            est.partial_fit(*args(k1, n), match_tracking=mode)
+                            seen_rows = n
+                    if bad is None:
+                        stage = "get_cluster_centers"
+                        if not finite_weights(est):
+                            bad = (":non-finite-weight", "NaN/inf in the learned weights at the end of the history")
+                        elif cls != "ART2A" or hasattr(inner, "get_cluster_centers"):
+                            calls.append("get_cluster_centers()")
+                            cen = inner.get_cluster_centers()
+                            if not all(np.all(np.isfinite(np.asarray(c, dtype=float))) for c in cen):
+                                bad = (":non-finite-centre", "NaN/inf in get_cluster_centers()")
+                if bad is None and spy.bad:
+                    bad = (f":non-finite-activation-or-match:{spy.bad[0][0]}",
+                           f"non-finite value returned during training or prediction: {spy.bad[:2]}")
+            except AssertionError as e:
+                if stage == "__init__":
+                    cov.hit(f"outline:rejected-by-validate_params:{cls}")
+                    continue
+                bad = (f".{stage}:{exc_enum(e)}", f"{stage} raised {e!r} on data accepted by validate_data")
+            except Exception as e:
+                bad = (f".{stage}:{exc_enum(e)}", f"{stage} raised {e!r} on data accepted by validate_data")
+            if bad is not None:
+                ctx.issue("violation", f"{where}[outline-queries,{d}-features]{bad[0]}",
+                          f"{bad[1]} — history on {d}-feature data with outline queries between the calls: {calls}", rep)
+            else:
+                cov.hit(f"outline:history-ok:{host}")
+                cov.hit(f"outline:history-ok:{cls}")
+            cov.hit(f"outline:features:{d}")
+            cov.case(("outline", cls, host, spec, rep["X"], rep["y"], k1, first, q1, q2, mode), True)
+            if i % 18 == 0:
+                cov.sample({"outline_history": list(calls), "cls": cls, "host": host, "features": d})
+    finally:
+        env[0].close("all")
+
+
+def plotting_histories(ctx):
+    """the shared plotting scenarios (harness/artv/plotpure.py: visualize / plot_cluster_bounds with the estimator's own
+    labels_, short and long colour lists, fit_gif with a small palette) continued under THIS property's oracle: after the
+    plotting call the weights are finite, a further partial_fit and a predict raise nothing, and every weight,
+    activation, match value and centre they produce is finite"""
+    from .. import plotpure
+    cov = ctx.cov
+    for sc in plotpure.scenarios(ctx, "C04", quick=16, thorough=240):
+        name, fam, est = sc.fam.name, sc.fam, sc.est
+        if sc.raised is not None and sc.plot.startswith("fit_gif"):
+            cov.hit("plot:fit_gif-stopped-in-a-frame")          # not a complete training call: nothing to judge
+            continue
+        desc = dict(sc.desc, trained_by=sc.trained_by, plotting_call_raised=sc.raised, state_changed_by_plot=sc.changed[:12])
+        where = f"after {sc.trained_by} then {sc.plot}"
+        stage = "plot"
+        try:
+            if not finite_weights(est):
+                ctx.issue("violation", f"{name}[plotting-call]:non-finite-weight", f"NaN/inf in the learned weights {where}", desc)
+                continue
+            spy = ActivationSpy(est)
+            with np.errstate(all="ignore"):
+                if fam.has_pfit:
+                    stage = "partial_fit"
+                    fam.pfit(est, sc.rows.sl(0, 1 + (len(sc.rows) > 2)))
+                if fam.has_predict:
+                    stage = "predict"
+                    fam.predict(est, sc.rows.sl(0, min(len(sc.rows), 6)))
+                stage = "get_cluster_centers"
+                cen = []
+                if hasattr(est, "get_cluster_centers") and name not in ("SimpleARTMAP", "ARTMAP") and getattr(_bounds_owner(est), "d_max_", 1) is not None:
+                    with quiet():
+                        cen = est.get_cluster_centers()
+            if not finite_weights(est):
+                ctx.issue("violation", f"{name}[plotting-call]:non-finite-weight", f"NaN/inf in the learned weights {where} then {stage}", desc)
+            elif not all(np.all(np.isfinite(np.asarray(c, dtype=float))) for c in cen):
+                ctx.issue("violation", f"{name}[plotting-call]:non-finite-centre", f"NaN/inf in get_cluster_centers() {where}", desc)
+            elif spy.bad:
+                ctx.issue("violation", f"{name}[plotting-call]:non-finite-activation-or-match:{spy.bad[0][0]}",
+                          f"non-finite value returned by training / prediction {where}: {spy.bad[:2]}", desc)
+            else:
+                cov.hit("plot:history-continues-finite")
+        except Exception as e:
+            sig = f"{name}.{stage}[plotting-call]:{exc_enum(e)}"
+            if name == "TopoART" and stage == "predict" and len(est.W) == 0:
+                sig = "TopoART.predict:empty-model"
+            ctx.issue("violation", sig, f"{stage} raised {e!r} {where} on data accepted by validate_data", desc)
+        cov.case(("plot", fam.spec, sc.desc["rows"], sc.plot, sc.trained_by), True)
